@@ -7,15 +7,15 @@ reg("C39",
     rule="state = byte image of the real server object (controller, page buffers, simulated flash) + connection data + reference "
          "model; transition = one real call (ATT write to control point / data, l2cap_output, confirmation, end_flash, ATT read); "
          "classes = distinct (request class, answer) kinds, kinds of handler accesses, kinds of notifications observed",
-    bound="quick: all event sequences up to depth 3, thorough: depth 5 (white list {[0x100,0x200)}) / 4 ({[0x100,0x140),[0x180,0x200)}) "
+    bound="quick: all event sequences up to depth 4 (white list {[0x100,0x200)}) / 3 ({[0x100,0x140),[0x180,0x200)}), thorough: depth 5 / 4 "
           "(cut by the deadline if the machine is too slow: evidence then says exhaustive=false and the completed depth), page size {4,16}; alphabet: control point write opcode {0..9,0xFF} x length {1,2,5,9,17,20}, Start Flash "
           "with 9 (12) addresses around the region borders incl. 0 and MAX, Read and Get CRC with 14 (19) address pairs, data writes "
           "of {0,1,page-1,page,page+1,20} bytes, end_flash, l2cap_output, confirmation, ATT read of the three characteristics",
     units=[dict(src="harness/C39_bootloader.cpp", asan=True,
-                # the two-region white lists have ~20% more events and ~3x the states: one level less in the thorough tier
+                # the two-region white lists have ~20% more events and ~3x the states: one level less
                 variants=lambda tier: [
-                    dict(name="p16r1", defs=["C39_PAGE=16", "C39_REGIONS=1"], args=["--depth", "5" if tier == "thorough" else "3"]),
-                    dict(name="p4r1",  defs=["C39_PAGE=4",  "C39_REGIONS=1"], args=["--depth", "5" if tier == "thorough" else "3"]),
+                    dict(name="p16r1", defs=["C39_PAGE=16", "C39_REGIONS=1"], args=["--depth", "5" if tier == "thorough" else "4"]),
+                    dict(name="p4r1",  defs=["C39_PAGE=4",  "C39_REGIONS=1"], args=["--depth", "5" if tier == "thorough" else "4"]),
                     dict(name="p16r2", defs=["C39_PAGE=16", "C39_REGIONS=2"], args=["--depth", "4" if tier == "thorough" else "3"]),
                     dict(name="p4r2",  defs=["C39_PAGE=4",  "C39_REGIONS=2"], args=["--depth", "4" if tier == "thorough" else "3"])])],
     quick_deadline=60, thorough_deadline=540,
